@@ -40,8 +40,15 @@ def judge(req, impl, model, spec):
     return {"corr": corr, "oracle": ok, "what": what, "key": req if len(req) > 40 else None, "cats": cats}
 
 
+def judge_soup(req, impl, model, spec):
+    if impl.startswith("PANIC"):
+        return {"corr": False, "oracle": False, "what": "the lexer panicked", "key": None, "cats": ["panic"]}
+    return {"corr": impl == model, "oracle": True, "what": "", "key": req if len(req) > 40 else None,
+            "cats": ["lex-error" if "ERR:" in impl else "lex-ok"]}
+
+
 def streams(tier, seed):
     q = tier == "quick"
     return [{"name": "parse", "stream": "parse", "count": 3000 if q else 200000, "judge": judge},
             {"name": "literal", "stream": "literal", "count": 4000 if q else 300000, "judge": judge},
-            {"name": "lex", "stream": "lex", "count": 4000 if q else 300000, "judge": judge}]
+            {"name": "lex", "stream": "lex", "count": 4000 if q else 300000, "judge": judge_soup}]
